@@ -53,13 +53,26 @@ Frames ==
    annkey  |-> [pre |-> "package p; @A(", suf |-> "=1) interface I { }"],
    glued   |-> [pre |-> "package p; interface I { void f(in", suf |-> " x); }"]]
 
+\* MODE = "inject": every hazard atom at EVERY character gap of a frame document that contains every construct
+Hazard == {"EACUTE", "CJK", "EMOJI", "COMB", "NBSP", "IDSP", "LSEP", "NEL", "CR", "LF", "TAB", "\"", "/", "*"}
+InjectFrames ==
+  [small |-> "package a.b; import c.D; /** doc */ @A(k=1) interface I { /* c */ oneway void f(in @B List<D> x, out int[] y) = 7; const String S = \"s\"; }",
+   parc  |-> "package p; parcelable P { /** d */ int a = 1; String s = \"x\"; float f = -1.5f; int[] arr = {1, 2}; const int C = A.B; Map m; }",
+   enum  |-> "package p; /** E */ enum E { /** first */ A = 1, B, @X C = \"c\", } // end"]
+Inject == IOEnv.MODE = "inject"
+
 VARIABLES slot, fill
 vars == <<slot, fill>>
-Init == slot \in (IF IOEnv.SLOT = "all" THEN DOMAIN Frames ELSE {IOEnv.SLOT}) /\ fill \in Fills
+Init == IF Inject
+        THEN /\ slot \in (IF IOEnv.SLOT = "all" THEN DOMAIN InjectFrames ELSE {IOEnv.SLOT})
+             /\ fill \in {<<h, p>> : h \in Hazard, p \in 0..Len(InjectFrames[slot])}
+        ELSE slot \in (IF IOEnv.SLOT = "all" THEN DOMAIN Frames ELSE {IOEnv.SLOT}) /\ fill \in Fills
 Next == UNCHANGED vars
 Spec == Init /\ [][Next]_vars
 
-DocAtoms(s, f) == Chars(Frames[s].pre) \o f \o Chars(Frames[s].suf)
+DocAtoms(s, f) == IF Inject
+                  THEN LET fr == Chars(InjectFrames[s]) IN SubSeq(fr, 1, f[2]) \o <<f[1]>> \o SubSeq(fr, f[2] + 1, Len(fr))
+                  ELSE Chars(Frames[s].pre) \o f \o Chars(Frames[s].suf)
 
 Verdict(at) == LET lx == Lex(at) IN
                IF lx.err # 0 THEN [lexed |-> FALSE, ok |-> FALSE, at |-> lx.err]
